@@ -657,6 +657,18 @@ fn pow_ref(a: Q, n: BigRational) -> Result<Q, RefErr> {
     if !n.is_integer() {
         return Err(RefErr::NonIntegerPower);
     }
+    // zero to any integer power is decided without arithmetic, however large the exponent
+    if a.si.is_zero() && a.unit == UState::Plain {
+        use num::Signed;
+        let e = n.to_integer();
+        return if e.is_negative() {
+            Err(RefErr::DivZero)
+        } else if e.is_zero() {
+            Ok(Q::plain(BigRational::one()))
+        } else {
+            Ok(Q::plain(BigRational::zero()))
+        };
+    }
     let n: i64 = n.to_integer().to_string().parse().map_err(|_| RefErr::Unspecified("huge exponent"))?;
     if n.unsigned_abs() > 1024 {
         return Err(RefErr::Unspecified("huge exponent"));
